@@ -62,13 +62,18 @@ pub enum Fin {
 pub struct Sink {
     pub pre: Pre,
     pub fin: Fin,
+    /// use the `*_unchecked` flavour of every downcast / swap involved (same observable behaviour for the right type)
+    pub unchecked: bool,
 }
 impl Sink {
-    pub const DROP: Sink = Sink { pre: Pre::None, fin: Fin::Drop };
-    pub const DOWNCAST: Sink = Sink { pre: Pre::None, fin: Fin::Downcast };
-    pub const FORGET: Sink = Sink { pre: Pre::None, fin: Fin::Forget };
+    pub const DROP: Sink = Sink { pre: Pre::None, fin: Fin::Drop, unchecked: false };
+    pub const DOWNCAST: Sink = Sink { pre: Pre::None, fin: Fin::Downcast, unchecked: false };
+    pub const FORGET: Sink = Sink { pre: Pre::None, fin: Fin::Forget, unchecked: false };
     pub fn new(pre: Pre, fin: Fin) -> Sink {
-        Sink { pre, fin }
+        Sink { pre, fin, unchecked: false }
+    }
+    pub fn unchecked(pre: Pre, fin: Fin) -> Sink {
+        Sink { pre, fin, unchecked: true }
     }
 }
 
@@ -82,6 +87,12 @@ pub enum GetHow {
     TAt,
     TGetMut,
     TAtMut,
+    /// the `unsafe` flavours (only issued for an index in range): `get_unchecked`, `get_unchecked_mut`, and the typed ones
+    /// reached through `downcast_ref_unchecked` / `downcast_mut_unchecked` of the vector
+    GetUnchecked,
+    GetUncheckedMut,
+    TGetUnchecked,
+    TGetUncheckedMut,
 }
 #[derive(Clone, Copy, Debug, PartialEq, Eq)]
 pub enum IterHow {
@@ -287,6 +298,8 @@ pub struct LazyMulti {
 #[derive(Clone, Copy, Debug, PartialEq, Eq)]
 pub enum ViewKind {
     ElemMutTyped,
+    /// `ElementMut::downcast_mut_unchecked`
+    ElemMutTypedUnchecked,
     ElemMutBytes,
     GetMutTyped,
     TypedAtMut,
@@ -308,8 +321,8 @@ pub enum ViewKind {
     /// swap with the unconsumed `remove(j)` handle of vector w, which is then pushed back to w
     ElemSwapRemoveHandle,
 }
-pub const ALL_VIEWS: [ViewKind; 15] = [
-    ViewKind::ElemMutTyped, ViewKind::ElemMutBytes, ViewKind::GetMutTyped, ViewKind::TypedAtMut, ViewKind::TypedGetMut,
+pub const ALL_VIEWS: [ViewKind; 16] = [
+    ViewKind::ElemMutTyped, ViewKind::ElemMutTypedUnchecked, ViewKind::ElemMutBytes, ViewKind::GetMutTyped, ViewKind::TypedAtMut, ViewKind::TypedGetMut,
     ViewKind::TypedSlice, ViewKind::VecBytes, ViewKind::IterMutItem, ViewKind::TIterMutItem, ViewKind::ElemSwapWrapper,
     ViewKind::WrapperSwapElem, ViewKind::ElemSwapRaw, ViewKind::ElemSwapElem, ViewKind::ElemSwapPopHandle, ViewKind::ElemSwapRemoveHandle,
 ];
@@ -387,6 +400,9 @@ impl fmt::Display for Src {
 }
 impl fmt::Display for Sink {
     fn fmt(&self, f: &mut fmt::Formatter<'_>) -> fmt::Result {
+        if self.unchecked {
+            write!(f, "unchecked:")?;
+        }
         match self.pre {
             Pre::None => {}
             Pre::Mutate(i) => write!(f, "mutate#{i}>")?,
